@@ -354,12 +354,33 @@ def rule_group_unit(ctx, px, root):
     import yaml
 
     cfg = yaml.safe_load((root / "src" / "nunavut" / "lang" / "properties.yaml").read_text())
+    # option keys that a command-line argument sets explicitly: `<dict>["<declared option>"] = ...` anywhere in the argparse runner
+    declared = set()
+    for body in cfg.values():
+        declared |= set(((body or {}).get("options") or {}).keys())
+    cli_set = {}
+    for f in px.all_funcs:
+        if f.module.name != "nunavut.cli.runners":
+            continue
+        for x in ast.walk(f.node):
+            if isinstance(x, ast.Subscript) and isinstance(x.ctx, ast.Store) and isinstance(x.slice, ast.Constant) and x.slice.value in declared:
+                cli_set.setdefault(x.slice.value, f.short)
+    ctx.unit("options_set_by_command_line_arguments", sorted(cli_set))
+    if len(cli_set) < 4:
+        raise AnalysisError("anchor missing: the command-line arguments that are copied into the language options")
     n = 0
     for sect, body in cfg.items():
         groups = (body or {}).get("defaults") or {}
         if not groups:
             continue
         opts = set(((body or {}).get("options") or {}).keys())
+        for name, g in sorted(groups.items()):
+            # the group is written over the merged options when its shorthand is selected (cpp _validate_language_options): a key that
+            # the command line can set explicitly must not be part of it, or the shorthand's copy displaces the explicit value
+            clash = sorted(k for k in g.keys() if k in cli_set and k != "std")
+            ctx.ob(R, "src/nunavut/lang/properties.yaml", f"{sect}.defaults.{name} contains no option that has a command-line argument of its own", not clash,
+                   "" if not clash else f"the group carries {clash} (YAML merge keys are expanded on load): selecting `{name}` writes these built-in values over "
+                   f"the ones given explicitly, e.g. `--{clash[0].replace('_', '-')}`")
         union = set()
         for g in groups.values():
             union |= set(g.keys())
